@@ -230,3 +230,79 @@ func verifCheckTgs(x, y []string) string {
 	}
 	return ""
 }
+
+// TestVerifBoundedDiffGaps: a structured family of longer texts: p unchanged lines, a
+// change, g unchanged lines, a second change, s unchanged lines (all lines distinct), for
+// every p, s in 0..4, every gap 0..9 (around the hunk-merging threshold of twice the
+// context), every pair of change kinds (replace, insert, delete, insert two) and with or
+// without a final newline on either side.
+func TestVerifBoundedDiffGaps(t *testing.T) {
+	maxPS := verifBound(4, 6)
+	maxGap := verifBound(9, 12)
+	type change struct{ old, new []string }
+	kinds := []change{
+		{[]string{"o"}, []string{"n"}},
+		{nil, []string{"n"}},
+		{[]string{"o"}, nil},
+		{nil, []string{"n", "m"}},
+	}
+	cases, nontrivial, fails := 0, 0, 0
+	first := ""
+	line := func(pfx string, i int) string { return fmt.Sprintf("%s%d\n", pfx, i) }
+	for p := 0; p <= maxPS; p++ {
+		for g := 0; g <= maxGap; g++ {
+			for s := 0; s <= maxPS; s++ {
+				for k1, c1 := range kinds {
+					for k2, c2 := range kinds {
+						var a, b strings.Builder
+						for i := 0; i < p; i++ {
+							a.WriteString(line("p", i))
+							b.WriteString(line("p", i))
+						}
+						for _, l := range c1.old {
+							a.WriteString(l + "1\n")
+						}
+						for _, l := range c1.new {
+							b.WriteString(l + "1\n")
+						}
+						for i := 0; i < g; i++ {
+							a.WriteString(line("g", i))
+							b.WriteString(line("g", i))
+						}
+						for _, l := range c2.old {
+							a.WriteString(l + "2\n")
+						}
+						for _, l := range c2.new {
+							b.WriteString(l + "2\n")
+						}
+						for i := 0; i < s; i++ {
+							a.WriteString(line("s", i))
+							b.WriteString(line("s", i))
+						}
+						for nl := 0; nl < 4; nl++ {
+							as, bs := a.String(), b.String()
+							if nl&1 != 0 {
+								as = strings.TrimSuffix(as, "\n")
+							}
+							if nl&2 != 0 {
+								bs = strings.TrimSuffix(bs, "\n")
+							}
+							cases++
+							if as != bs {
+								nontrivial++
+							}
+							d := Diff("a", []byte(as), "b", []byte(bs))
+							if msg := verifCheckDiff(as, bs, d); msg != "" {
+								fails++
+								if first == "" {
+									first = fmt.Sprintf("Diff(%q, %q) [p=%d gap=%d s=%d kinds=%d,%d]: %s; output %q", as, bs, p, g, s, k1, k2, msg, d)
+								}
+							}
+						}
+					}
+				}
+			}
+		}
+	}
+	fmt.Printf("VERIF-BOUNDED: name=DiffGaps bound=%d cases=%d nontrivial=%d failures=%d first=%q\n", maxGap, cases, nontrivial, fails, first)
+}
